@@ -81,7 +81,137 @@ FEATURES = [
     dict(name="item_component", feature="FItemComponent", src='Item.create(it, stone, "N", component=[a=1]);'),
     dict(name="item_nbt", feature="FItemNbt", src='Item.create(it, stone, "N", nbt={a:1});'),
     dict(name="jmc_require", feature="FReturnRun", src='JMC.require(other, "other:api/v1");', header="#link other"),
+    # round 3: every spelling of the feature (what follows `with`, where the call stands, which labels are missing)
+    dict(name="with_storage", feature="FWith", src='function g(){ say "g"; } function f(){ g() with a:b::c; }'),
+    dict(name="with_entity", feature="FWith", src='function g(){ say "g"; } function f(){ g() with @s::Inventory[0]; }'),
+    dict(name="with_scores", feature="FWith", src='function g(){ say "g"; } function f(){ g() with [$a, $b]; }'),
+    dict(name="with_after_execute", feature="FWith", src='function g(){ say "g"; } function f(){ execute as @a run g() with {x:1}; }'),
+    dict(name="with_method", feature="FWith", src='class k { function g(){ say "g"; } } function f(){ k.g() with {x:1}; }'),
+    dict(name="with_anon_storage", feature="FWith", src='function f(){ execute as @a run { say "a"; say "b"; } with a:b::c; }'),
+    dict(name="with_switch", feature="FWith", src='function f(){ switch($v){ case 1: say "1"; case 2: say "2"; } with {x:1}; }'),
+    dict(name="with_load", feature="FWith", src='function g(){ say "g"; } g() with {x:1};'),
+    dict(name="switch_descending", feature="FSwitchSparse", src='function f(){ switch($v){ case 3: say "3"; case 1: say "1"; } }'),
+    dict(name="switch_duplicate", feature="FSwitchSparse", src='function f(){ switch($v){ case 1: say "1"; case 1: say "5"; } }'),
+    dict(name="switch_gap_later", feature="FSwitchSparse", src='function f(){ switch($v){ case 1: say "1"; case 2: say "2"; case 4: say "4"; } }'),
+    dict(name="switch_gap_negative", feature="FSwitchSparse", src='function f(){ switch($v){ case -3: say "a"; case -1: say "b"; } }'),
+    dict(name="switch_default_only_case", feature="FSwitchDefault", src='function f(){ switch($v){ case 1: say "1"; default: say "d"; } }'),
+    dict(name="switch_default_load", feature="FSwitchDefault", src='switch($v){ case 1: say "1"; case 2: say "2"; default: say "d"; }'),
+    dict(name="switch_default_forcebst", feature="FSwitchDefault", header="#forcebst", forcebst=True,
+         src='function f(){ switch($v){ case 1: say "1"; case 2: say "2"; default: say "d"; } }'),
+    dict(name="switch_sparse_forcebst", feature="FSwitchSparse", header="#forcebst", forcebst=True,
+         src='function f(){ switch($v){ case 1: say "1"; case 5: say "5"; } }'),
 ]
+
+# ---- round 3: every version-gated built-in x every combination of its boolean / keyword arguments (absent = default, explicit)
+ARROW = '()=>{ say "cb"; }'
+ITEM_ALTS = dict(displayName=['"N"'], lore=['["l1", "l2"]'], nbt=["{a:1}"], component=["[a=1]"], onClick=[ARROW], onPlace=[ARROW])
+
+
+def item_uses(a):
+    return ({"FItemComponent"} if a.get("component") else set()) | ({"FItemNbt"} if a.get("nbt") else set())
+
+
+BUILTIN_PROBE = {
+    # call_string -> required argument texts (positional, in declaration order), alternatives of the optional ones,
+    #                the format-dependent features a combination makes the output use (specification side)
+    "JMC.require": dict(required=dict(namespace="other", functionPath='"other:api/v1"'), header="#link other",
+                        alts=dict(errorMessage=['""', '"dependency missing"']), uses=lambda a: {"FReturnRun"}),
+    "Item.create": dict(required=dict(itemId="it", itemType="stone"), alts=ITEM_ALTS, uses=item_uses),
+    "Item.createUse": dict(required=dict(itemId="it", itemType="carrot_on_a_stick"), alts=ITEM_ALTS, uses=item_uses),
+    "Item.createSpawnEgg": dict(required=dict(itemId="egg", mobType="pig", onPlace=ARROW), alts=ITEM_ALTS, uses=item_uses,
+                                known_crash="KeyError"),    # KeyError 'itemType' in ItemMixin.create_item on every call (same site as the C13 finding)
+    "Item.createSign": dict(required=dict(itemId="sg", variant="oak"),
+                            alts=dict(ITEM_ALTS, texts=['["a","b","c","d"]', '["a","b","c","d","e","f","g","h"]']),
+                            uses=lambda a: item_uses(a) | ({"FSignSides"} if "true" in (a.get("isFrontGlow"), a.get("isBackGlow")) else set())),
+    "GUI.register": dict(required=dict(name="my_gui", id='"a"', item="stone"), prelude='GUI.template(my_gui, ["abc"], block); ',
+                         alts=ITEM_ALTS, uses=item_uses, known_crash="KeyError"),   # KeyError 'component' on every call: a C13 finding, nothing to judge here
+}
+ABSENT = None
+
+
+def builtin_matrix(t, tier):
+    """[(builtin entry, probe, explicit argument dict, effective argument dict)]; missing = call strings without a probe"""
+    out, missing = [], []
+    for b in t["gated_builtins"]:
+        pr = BUILTIN_PROBE.get(b["call_string"])
+        if pr is None:
+            missing.append(b["call_string"])
+            continue
+        types = dict(b["args"])
+        optional = [a for a, _ in b["args"] if a in b["defaults"]]
+        not_given = [a for a, _ in b["args"] if a not in b["defaults"] and a not in pr["required"]]
+        if not_given:
+            missing.append(f"{b['call_string']} (no value for required argument {not_given})")
+            continue
+        bools = [a for a in optional if b["defaults"][a] in ("true", "false")]
+        in_gate = set()
+
+        def atoms(c):
+            if c[0] in ("bool", "given"):
+                in_gate.add(c[1])
+            elif c[0] == "not":
+                atoms(c[1])
+            elif c[0] in ("and", "or"):
+                for x in c[1]:
+                    atoms(x)
+        for g in b["gates"]:
+            for c in g["conds"]:
+                atoms(c)
+        choices = {}
+        for a in optional:
+            if a in bools:
+                choices[a] = [ABSENT, "false", "true"]
+            else:
+                alt = list(pr.get("alts", {}).get(a, []))
+                if types[a] == "STRING":
+                    alt = ['"' + b["defaults"][a] + '"'] + alt            # the default written explicitly
+                choices[a] = [ABSENT] + alt
+        cross = [a for a in optional if a in bools or a in in_gate]
+        others = [a for a in optional if a not in cross]
+        import itertools
+        combos = []
+        for vals in itertools.product(*[choices[a] for a in cross]):
+            combos.append(dict(zip(cross, vals)))
+        for bvals in itertools.product(*[choices[a] for a in bools]):
+            for a in others:
+                for v in choices[a][1:]:
+                    c = dict(zip(bools, bvals))
+                    c[a] = v
+                    combos.append(c)
+        seen = set()
+        for c in combos:
+            explicit = {a: v for a, v in c.items() if v is not ABSENT}
+            key = tuple(sorted(explicit.items()))
+            if key in seen:
+                continue
+            seen.add(key)
+            eff = dict(b["defaults"])
+            for a, v in explicit.items():
+                eff[a] = v[1:-1] if types[a] == "STRING" and len(v) >= 2 and v[0] == v[-1] == '"' else v
+            out.append((b, pr, explicit, eff))
+    return out, missing
+
+
+def builtin_src(b, pr, explicit, style=0):
+    req = [pr["required"][a] for a, _ in b["args"] if a in pr["required"]]
+    if style == 1:      # every argument by keyword
+        req = [f"{a}={pr['required'][a]}" for a, _ in b["args"] if a in pr["required"]]
+    opt = [f"{a}={explicit[a]}" for a, _ in b["args"] if a in explicit]
+    return pr.get("prelude", "") + f"{b['call_string']}({', '.join(req + opt)});"
+
+
+def version_syntax(files: dict):
+    """format-dependent command syntax found in the emitted functions: {feature: example line}"""
+    found = {}
+    for p, text in files.items():
+        if not p.endswith(".mcfunction"):
+            continue
+        for line in text.split("\n"):
+            if re.search(r"(^|\brun )return run\b", line):
+                found.setdefault("FReturnRun", line)
+            if line.startswith("$") or re.search(r"\bfunction \S+ (with |\{)", line):
+                found.setdefault("FWith", line)
+    return found
 
 # ---- disk builds
 DISK_SRC = 'function foo.bar(){ say "x"; } Trigger.add(helpme, ()=>{ foo.bar(); say "b"; });'
@@ -332,6 +462,15 @@ def main(tier: str) -> int:
                     continue        # the unversioned format selects the 4-line legacy sign: no back side to glow
                 jobs.append(dict(kind="compile", src=fe["src"], header=fe.get("header"), cert=cert_text(cert), pack_format=f))
                 meta.append(dict(type="feature", probe=fe, cert=ci, fmt=f, pf10=TS.scaled(f)))
+    # round 3: every version-gated built-in (regenerated list) x every combination of its boolean / gate-relevant arguments
+    # (absent = default / explicit) and each other optional argument on top of every boolean combination x every format
+    matrix, matrix_missing = builtin_matrix(t, tier) if t else ([], [])
+    for mi, (b, pr, explicit, eff) in enumerate(matrix):
+        src = builtin_src(b, pr, explicit, style=1 if mi % 7 == 3 else 0)
+        for f in fmts:
+            jobs.append(dict(kind="compile", src=src, header=pr.get("header"), cert=cert_text(CERTS[0]), pack_format=f))
+            meta.append(dict(type="matrix", probe=dict(name="builtin:" + b["call_string"]), builtin=b, bprobe=pr, explicit=explicit, eff=eff,
+                             cert=0, fmt=f, pf10=TS.scaled(f)))
     # PackVersion.require called directly: every table format x every threshold/format x both directions
     thr_vals = sorted({f for f in fmts} | ({str(v / 10).rstrip("0").rstrip(".") for v in t["features"].values()} if t else {"13", "16", "33", "48"}),
                       key=lambda x: float(x))
@@ -353,7 +492,19 @@ def main(tier: str) -> int:
             meta.append(dict(type="disk", probe=dict(name="disk_" + sc, expect=DISK_EXPECT), cert=0, fmt=f, pf10=pf10, scenario=sc, pre=pre))
     results = run_jobs(jobs)
 
-    pcases, pmeta, fcases, fmeta, rcases, rmeta = [], [], [], [], [], []
+    pcases, pmeta, fcases, fmeta, rcases, rmeta, mcases, mmeta = [], [], [], [], [], [], [], []
+    gate_by_label = {g["label"]: g for g in t["gates"]} if t else {}
+    builtin_crashes = {}
+
+    def add_mcase(m, uses, active, outcome):
+        mcases.append(f"mkM {coq_list(sorted(uses))} {coq_list(coq_str(a) for a in active)} {cz(m['pf10'])} {coq_bool(m['pf10'] in table10)} {outcome}%nat")
+        mmeta.append(dict(m, uses=sorted(uses), active=list(active), outcome=outcome))
+
+    def scan_output(m, r):
+        # format-dependent syntax in ANY compiled output must be expressible under the format (no gate involved)
+        if r.get("ok") and m["pf10"] in table10 and m["pf10"] != -10:
+            for feat, line in version_syntax(r["files"]).items():
+                add_mcase(dict(m, type="scan", line=line), {feat}, [], 0)
     once = set()
     n_viol_before = len(ck.violations)
 
@@ -407,6 +558,30 @@ def main(tier: str) -> int:
             pmeta.append(m)
             continue
         rejected = (not r["ok"]) and r["exc"] in ("MinecraftVersionTooLow", "MinecraftVersionTooHigh")
+        scan_output(m, r)
+        if m["type"] == "matrix" or m["probe"].get("forcebst"):
+            outcome = 0 if r["ok"] else 1 if rejected else 2 if r.get("jmc") else 3
+            if outcome == 3:
+                if m["type"] == "matrix" and r["exc"] == m["bprobe"].get("known_crash"):
+                    builtin_crashes[m["probe"]["name"]] = builtin_crashes.get(m["probe"]["name"], 0) + 1
+                else:
+                    probe_failed(m, job, r, "compiles, or is rejected with a diagnostic")
+                continue
+            if m["type"] == "matrix":
+                active = [g["label"] for g in m["builtin"]["gates"] if all(TS.cond_eval(c, m["eff"]) for c in g["conds"])]
+                uses = m["bprobe"]["uses"](m["eff"])
+            else:       # #forcebst: the gates of the feature apply; the strategy then refuses what the macro dispatch would have done
+                active = [g["label"] for g in t["gates"] if g["feature"] == m["probe"]["feature"]] if t else []
+                uses = {m["probe"]["feature"]}
+                if outcome == 0 and ("forcebst", m["probe"]["name"]) not in once:
+                    once.add(("forcebst", m["probe"]["name"]))
+                    ck.violation(dict(kind="feature-gate", probe=m["probe"]["name"], feature=m["probe"]["feature"], pack_format=m["fmt"], src=job["src"],
+                                      header=job.get("header"), jmc_txt=job["cert"], expect_reject=True,
+                                      expected="rejected: #forcebst selects the binary-search switch, which cannot express the feature", actual="compiled"))
+            add_mcase(m, uses, active, outcome)
+            if rejected:
+                n_reject_ok += 1
+            continue
         feature = m["probe"].get("feature")
         if feature and (m["type"] == "feature" or not r["ok"]):
             # 0 = compiled, 1 = version diagnostic, 2 = another diagnostic of JMC's own (e.g. the strategy in force cannot do it)
@@ -441,7 +616,8 @@ def main(tier: str) -> int:
 
     files = []
     per = 300
-    for name, cases, checker in (("p", pcases, "pmismatches R sites"), ("f", fcases, "fmismatches gates sgates" if t else "fmismatches_nogates"), ("r", rcases, "rmismatches")):
+    for name, cases, checker in (("p", pcases, "pmismatches R sites"), ("f", fcases, "fmismatches gates sgates" if t else "fmismatches_nogates"), ("r", rcases, "rmismatches"),
+                                 ("m", mcases, "mmismatches gates" if t else "mmismatches_nogates")):
         for fi, start in enumerate(range(0, len(cases), per)):
             body = header + "Definition cases := [\n" + ";\n".join(cases[start:start + per]) + "\n].\n" + f"Eval vm_compute in {checker} cases.\n"
             files.append((name, start, f"cases_{name}_{fi}.v", body))
@@ -449,7 +625,7 @@ def main(tier: str) -> int:
         (d / fname).write_text(body)
     with ThreadPoolExecutor(max_workers=NCPU) as ex:
         outs = list(ex.map(lambda f: coqc_file(d / f[2]), files))
-    bad = {"p": [], "f": [], "r": []}
+    bad = {"p": [], "f": [], "r": [], "m": []}
     for (name, start, fname, _), (ok, out) in zip(files, outs):
         if not ok:
             ck.violation(dict(kind="correspondence-file-failed", file=fname, log=out[-2500:]), no_input=True)
@@ -503,6 +679,56 @@ def main(tier: str) -> int:
                                     "rejected with a diagnostic: this pack format / switch strategy cannot express the feature"),
                           actual=("rejected: " + m["res"]["msg"][:200]) if rej else "compiled",
                           expect_reject=not rej))
+    seen = set()
+    for i in bad["m"]:
+        m = mmeta[i]
+
+        def raises(g):
+            return m["pf10"] != -10 and ((m["pf10"] >= g["thr"]) if g["lower"] else (m["pf10"] < g["thr"]))
+        raising = [lab for lab in m["active"] if lab in gate_by_label and raises(gate_by_label[lab])]
+        if m["type"] == "scan":
+            why = f"the emitted line {m['line']!r} uses syntax ({m['uses'][0]}) that the Minecraft of this pack format cannot parse"
+            expect_reject = True
+        elif m["outcome"] == 0 and raising:
+            why, expect_reject = f"the regenerated gate(s) {raising} apply to this argument combination and raise for this format", True
+        elif m["outcome"] == 0:
+            why = (f"this argument combination makes the output use {m['uses']}, which this pack format cannot express, and no version gate is reached "
+                   f"(gates reached for this combination: {m['active'] or 'none'})")
+            expect_reject = True
+        else:
+            why, expect_reject = f"a version diagnostic although no regenerated gate that applies to this combination raises (applying: {m['active'] or 'none'})", False
+        key = (m["probe"]["name"], m["type"], m["outcome"], expect_reject)
+        if key in seen:
+            continue
+        seen.add(key)
+        ck.violation(dict(kind="feature-gate", probe=m["probe"]["name"], feature=",".join(m["uses"]), pack_format=m["fmt"], src=m["job"]["src"],
+                          header=m["job"].get("header"), jmc_txt=m["job"]["cert"], arguments=m.get("explicit"),
+                          expected=("rejected with a version diagnostic: " if expect_reject else "accepted: ") + why,
+                          actual="compiled" if m["res"]["ok"] else "rejected: " + m["res"]["msg"][:200], expect_reject=expect_reject))
+    # a diagnostic of another kind that depends on the format without a gate saying so: the program is rejected either way, so this is
+    # recorded, not judged (e.g. Item.createSign with 8 lines below format 13: "Sign may only have 4 lines")
+    by_combo, fd_obs = {}, []
+    for m in mmeta:
+        if m["type"] == "matrix":
+            by_combo.setdefault((m["probe"]["name"], tuple(sorted(m["explicit"].items()))), []).append(m)
+    for (pname, combo), ms in by_combo.items():
+        def raising(m):
+            return any(lab in gate_by_label and m["pf10"] != -10 and ((m["pf10"] >= gate_by_label[lab]["thr"]) if gate_by_label[lab]["lower"]
+                                                                   else (m["pf10"] < gate_by_label[lab]["thr"])) for lab in m["active"])
+        ok_f = [m for m in ms if m["outcome"] == 0]
+        other = [m for m in ms if m["outcome"] == 2 and not raising(m)]
+        if ok_f and other:
+            fd_obs.append(dict(builtin=pname, arguments=dict(combo), rejected_for=[m["fmt"] for m in other][:6], message=other[0]["res"]["msg"].split("\n")[1][:100]
+                               if "\n" in other[0]["res"]["msg"] else other[0]["res"]["msg"][:100]))
+    if t and t.get("reach_errors"):
+        ck.violation(dict(kind="translator-failed", what="translate_sites.py cannot tell under which conditions a version gate is reached (fail-closed)",
+                          error="; ".join(t["reach_errors"]),
+                          theorem="C18_features_of_the_source speaks about gates that are reached whenever their feature is used"),
+                     no_input=len(ck.violations) == n_viol_before)
+    if matrix_missing:
+        ck.violation(dict(kind="gated-builtin-without-probe", builtins=matrix_missing,
+                          what="a version gate is reached from a built-in for which harness/c18.py BUILTIN_PROBE has no argument values (fail closed)"),
+                     no_input=True)
     for i in bad["r"][:3]:
         m = rmeta[i]
         ck.violation(dict(kind="require", pf=m["fmt"], f=m["thr"], is_lower=m["lower"], actual=m["res"]["r"],
@@ -522,9 +748,18 @@ def main(tier: str) -> int:
     hist = {}
     for m in pmeta:
         hist[m["probe"]["name"]] = hist.get(m["probe"]["name"], 0) + 1
-    distinct = len({(m["probe"]["name"], m["pf10"], m["cert"]) for m in pmeta}) + len({(m["probe"]["name"], m["pf10"]) for m in fmeta}) + len(rcases)
+    distinct = (len({(m["probe"]["name"], m["pf10"], m["cert"]) for m in pmeta}) + len({(m["probe"]["name"], m["pf10"]) for m in fmeta}) + len(rcases)
+                + len({(m["probe"]["name"], m["pf10"], m["type"], tuple(sorted((m.get("explicit") or {}).items()))) for m in mmeta}))
+    mstat = {}
+    for m in mmeta:
+        if m["type"] == "matrix":
+            e = mstat.setdefault(m["probe"]["name"], dict(combinations=set(), compiled=0, version_diagnostic=0, other_diagnostic=0))
+            e["combinations"].add(tuple(sorted(m["explicit"].items())))
+            e[["compiled", "version_diagnostic", "other_diagnostic"][m["outcome"]]] += 1
+    for e in mstat.values():
+        e["combinations"] = len(e["combinations"])
     ck.cov.update(dict(
-        evaluations=len(pcases) + len(fcases) + len(rcases), distinct_nontrivial=distinct,
+        evaluations=len(pcases) + len(fcases) + len(rcases) + len(mcases), distinct_nontrivial=distinct,
         rule="probe case = (program exercising one call site / lookup, pack format, jmc.txt name set): Coq checks that the site's resource is at jmc_path = mc_path, "
              "that every reference found in the emitted commands/JSON resolves (mc_path) to an emitted file and that every emitted file sits in mc_folder of its kind; "
              "feature case = (feature program, pack format): rejected with a version diagnostic iff a regenerated gate raises, and accepted only if expressible; "
@@ -536,6 +771,13 @@ def main(tier: str) -> int:
         formats=fmts, formats_in_table=len(table10), probe_histogram=hist, feature_rejections_observed=n_reject_ok,
         sites_without_probe=sorted(set(label_index) - {lab for pr in PROBES for lab, _, _ in pr["expect"]}),
         thresholds=t["features"] if t else {},
+        gate_reach={g["label"]: g["reach"] for g in t["gates"]} if t else {},
+        gated_builtins={b["call_string"]: {g["label"].split(":", 1)[1]: g["conds_text"] for g in b["gates"]} for b in t["gated_builtins"]} if t else {},
+        builtin_argument_matrix=mstat, builtin_known_crashes=builtin_crashes, format_dependent_other_diagnostics=fd_obs[:8],
+        output_syntax_scans=sum(1 for m in mmeta if m["type"] == "scan"),
+        builtin_matrix_rule="per version-gated built-in: full product of its boolean arguments (absent / false / true) and the arguments a gate condition "
+                            "mentions (absent / given), plus every other optional argument (explicit default, alternative) on top of every boolean combination; x every format; "
+                            "m-case: compiled => no gate whose regenerated reach condition holds raises and every used feature is expressible; version diagnostic => such a gate raises",
     ))
     return ck.finish()
 
